@@ -16,6 +16,14 @@
 #include <vector>
 #include "common/vcommon.hpp"
 
+// Harness glue that exists once per library matcher type is kept out of the optimiser: it only forwards to library
+// templates (which are compiled as the command line says), and optimising ~250 copies of it dominated the build time.
+#if defined(__clang__)
+#define GLUE __attribute__((optnone, noinline))
+#else
+#define GLUE __attribute__((optimize("O0"), noinline))
+#endif
+
 namespace {
 
 // =====================================================================================================
@@ -392,8 +400,9 @@ using DM = decltype(trompeloeil::make_matcher<V>(DPred<V>{}, DPrint<V>{}, std::s
 template <typename V, typename M>
 struct Holder : HolderBase<V> {
   M m;
-  explicit Holder(M mm) : m(std::move(mm)) {}
-  bool matches(V const& v) const override { return trompeloeil::param_matches(m, std::cref(v)); }
+  template <typename U> GLUE explicit Holder(U&& u) : m(std::forward<U>(u)) {}
+  GLUE bool matches(V const& v) const override { return trompeloeil::param_matches(m, std::cref(v)); }
+  GLUE ~Holder() override {}
 };
 // composed matchers never get copied: they are moved into a heap-allocated holder (not_matcher / ptr_deref have
 // greedy forwarding constructors that hijack copies of non-const objects)
@@ -404,14 +413,14 @@ __attribute__((noinline)) DM<V> wrap_holder(HolderBase<V>* raw, const Node& n) {
   return trompeloeil::make_matcher<V>(DPred<V>{}, DPrint<V>{}, std::move(h));
 }
 template <typename V, typename M>
-DM<V> wrap(M m, const Node& n) {
-  return wrap_holder<V>(new Holder<V, M>(std::move(m)), n);
+GLUE DM<V> wrap(M&& m, const Node& n) {
+  return wrap_holder<V>(new Holder<V, std::decay_t<M>>(std::forward<M>(m)), n);
 }
 
 template <typename V> DM<V> build(const Node& n);
 
 template <typename V, bool ALLOW_TYPED, typename Opnd>
-DM<V> build_rel(const Node& n, Opnd const& v) {
+GLUE DM<V> build_rel(const Node& n, Opnd const& v) {
   if constexpr (ALLOW_TYPED) if (n.typed) switch (n.rel) {
     case R_EQ: return wrap<V>(trompeloeil::eq<V>(v), n);
     case R_NE: return wrap<V>(trompeloeil::ne<V>(v), n);
@@ -430,12 +439,12 @@ DM<V> build_rel(const Node& n, Opnd const& v) {
   }
 }
 template <typename V, bool ALLOW_TYPED, typename Opnd>
-DM<V> build_eqne(const Node& n, Opnd const& v) {
+GLUE DM<V> build_eqne(const Node& n, Opnd const& v) {
   if constexpr (ALLOW_TYPED) if (n.typed) return n.rel == R_EQ ? wrap<V>(trompeloeil::eq<V>(v), n) : wrap<V>(trompeloeil::ne<V>(v), n);
   return n.rel == R_EQ ? wrap<V>(trompeloeil::eq(v), n) : wrap<V>(trompeloeil::ne(v), n);
 }
 template <typename V>
-DM<V> build_re(const Node& n) {
+GLUE DM<V> build_re(const Node& n) {
   namespace rc_ = std::regex_constants;
   auto opt = n.icase ? rc_::icase : rc_::ECMAScript;
   auto mt = n.notbol ? rc_::match_not_bol : rc_::match_default;
@@ -467,7 +476,7 @@ auto with_plain(const Node& k, F&& f) {
 }
 
 template <typename V, int CK, bool TYPED, typename... Ops>
-DM<V> finish_set(const Node& n, Ops&&... ops) {
+GLUE DM<V> finish_set(const Node& n, Ops&&... ops) {
   if constexpr (sizeof...(Ops) == 0) { (void)n; abort(); }  // combinators with zero operands are never built
   else if constexpr (CK == K_ANYOF) {
     if constexpr (TYPED) return wrap<V>(trompeloeil::any_of<V>(std::move(ops)...), n);
@@ -481,7 +490,7 @@ DM<V> finish_set(const Node& n, Ops&&... ops) {
   }
 }
 template <typename V, int CK, bool TYPED, unsigned MASK, typename... Ops>
-DM<V> build_set(const Node& n, unsigned want, Ops&&... ops) {
+GLUE DM<V> build_set(const Node& n, unsigned want, Ops&&... ops) {
   constexpr size_t pos = sizeof...(Ops);
   constexpr Dom d = Tr<V>::dom;
   if constexpr (pos >= 1 && sig_ok(d, TYPED, pos, MASK)) {
@@ -504,7 +513,7 @@ DM<V> build_set(const Node& n, unsigned want, Ops&&... ops) {
 }
 
 template <typename V>
-DM<V> build(const Node& n) {
+GLUE DM<V> build(const Node& n) {
   constexpr Dom d = Tr<V>::dom;
   switch (n.k) {
     case K_WILD: return wrap<V>(trompeloeil::_, n);
@@ -703,21 +712,21 @@ void save_current(const Case& c) {  // a sanitizer abort bypasses shrinking; lea
   if (pwrite(g_cur_fd, t.data(), t.size(), 0) == static_cast<ssize_t>(t.size())) { if (ftruncate(g_cur_fd, static_cast<off_t>(t.size())) != 0) {} }
 }
 
-template <typename V>
-bool lib_eval(const DM<V>& m, const Val& v) {
-  return with_value<V>(v, [&](V& x) { return trompeloeil::param_matches(m, std::ref(x)); });
+// evaluation of any library matcher on an abstract value, type-erased so that the comparison loops exist once
+using EvalFn = std::function<bool(const Val&)>;
+template <typename V, typename M>
+EvalFn make_eval(const M& m) {
+  return [&m](const Val& v) { return with_value<V>(v, [&](V& x) { return trompeloeil::param_matches(m, std::ref(x)); }); };
 }
 
-template <typename V>
-bool check_typed(const Case& c, std::string& why, bool account) {
-  constexpr Dom d = Tr<V>::dom;
+__attribute__((noinline)) bool run_oracle(const Case& c, const EvalFn& lib, std::vector<char>& expect, std::string& why, bool account) {
+  Dom d = c.dom;
   const auto& vals = domain_values(d);
-  DM<V> da = build<V>(c.a);
   size_t acc = 0, rej = 0, nulls = 0;
-  std::vector<char> expect(vals.size());
+  expect.assign(vals.size(), 0);
   for (size_t i = 0; i < vals.size(); ++i) {
     bool o = oracle(c.a, d, vals[i]);
-    bool l = lib_eval<V>(da, vals[i]);
+    bool l = lib(vals[i]);
     expect[i] = o;
     (l ? acc : rej)++;
     if (vals[i].null) nulls++;
@@ -733,25 +742,68 @@ bool check_typed(const Case& c, std::string& why, bool account) {
     ST.label("null_values_evaluated", nulls);
     ST.label(acc && rej ? "trees_both_outcomes" : acc ? "trees_accept_everything" : "trees_reject_everything");
   }
-  if (!why.empty()) return false;
+  return why.empty();
+}
+
+__attribute__((noinline)) bool run_law(const Case& c, const char* name, const EvalFn& l, const EvalFn& r, bool negate_r, std::string& why, bool account) {
+  Dom d = c.dom;
+  for (auto& v : domain_values(d)) {
+    bool lv = l(v), rv = r(v);
+    if (negate_r) rv = !rv;
+    if (lv != rv) {
+      why = std::string("law violated: ") + name + "\na (" + DOM_NAME[d] + ") = " + pretty(c.a, d) + "\nb = " + pretty(c.b, d) + "\nvalue: " + val_str(d, v) +
+            "\nleft side: " + (lv ? "accept" : "reject") + "   right side: " + (rv ? "accept" : "reject");
+      return false;
+    }
+  }
+  if (account) ST.label("laws_checked");
+  return true;
+}
+
+__attribute__((noinline)) bool null_law_result(const Case& c, const char* what, bool s, bool ns, std::string& why, bool account) {
+  if (s || !ns) {
+    why = std::string("law violated: *m rejects null and !*m accepts null (") + what + ")\nm = " + pretty(c.a, c.dom) + "\n*m on null: " + (s ? "accept" : "reject") + "   !*m on null: " + (ns ? "accept" : "reject");
+    return false;
+  }
+  if (account) ST.label("null_laws_checked");
+  return true;
+}
+
+// calls the mock with (a sample of) the domain's values; `call` returns "" when accepted, otherwise the fatal report text
+__attribute__((noinline)) bool run_e2e(const Case& c, const char* site, const std::function<std::string(const Val&, bool&)>& call, const std::vector<char>& expect, std::string& why, bool account) {
+  Dom d = c.dom;
+  const auto& vals = domain_values(d);
+  if (account) ST.label(std::string("e2e_site_") + site);
+  size_t step = vals.size() > 16 ? 7 : 1;
+  for (size_t i = 0; i < vals.size(); i += step) {
+    bool threw = false;
+    unsigned long nf0 = g_nonfatal_reports;
+    std::string msg = call(vals[i], threw);
+    bool ok = expect[i] ? !threw : (threw && msg.find("No match for call of") != std::string::npos);
+    if (g_nonfatal_reports != nf0) ok = false;
+    if (g_verbose) printf("  call(%s) via site %s: %s\n", val_str(d, vals[i]).c_str(), site, threw ? "fatal report" : "accepted");
+    if (account) ST.label(threw ? "e2e_calls_no_match" : "e2e_calls_accepted");
+    if (!ok) {
+      why = std::string("mock call disagrees with the independent evaluator (expectation site ") + site + ")\nmatcher (" + DOM_NAME[d] + "): " + pretty(c.a, d) + "\nvalue: " + val_str(d, vals[i]) +
+            "\nexpected: " + (expect[i] ? "call accepted" : "fatal 'No match' report") + "\nobserved: " + (threw ? "fatal report: " + msg.substr(0, 400) : std::string("call accepted")) +
+            (g_nonfatal_reports != nf0 ? "\n(plus an unexpected non-fatal report)" : "");
+      return false;
+    }
+  }
+  return true;
+}
+
+template <typename V>
+bool check_typed(const Case& c, std::string& why, bool account) {
+  constexpr Dom d = Tr<V>::dom;
+  DM<V> da = build<V>(c.a);
+  std::vector<char> expect;
+  EvalFn ea = make_eval<V>(da);
+  if (!run_oracle(c, ea, expect, why, account)) return false;
 
   // ---- algebraic laws, library against library (composed matchers live as named prvalues, never copied) ----
   if (c.has_b) {
     DM<V> db = build<V>(c.b);
-    auto law = [&](const char* name, const auto& l, const auto& r, bool negate_r) {
-      for (auto& v : vals) {
-        bool lv = with_value<V>(v, [&](V& x) { return trompeloeil::param_matches(l, std::ref(x)); });
-        bool rv = with_value<V>(v, [&](V& x) { return trompeloeil::param_matches(r, std::ref(x)); });
-        if (negate_r) rv = !rv;
-        if (lv != rv) {
-          why = std::string("law violated: ") + name + "\na (" + DOM_NAME[d] + ") = " + pretty(c.a, d) + "\nb = " + pretty(c.b, d) + "\nvalue: " + val_str(d, v) +
-                "\nleft side: " + (lv ? "accept" : "reject") + "   right side: " + (rv ? "accept" : "reject");
-          return false;
-        }
-      }
-      if (account) ST.label("laws_checked");
-      return true;
-    };
     auto any_ab = trompeloeil::any_of(da, db);
     auto any_ba = trompeloeil::any_of(db, da);
     auto all_ab = trompeloeil::all_of(da, db);
@@ -763,13 +815,13 @@ bool check_typed(const Case& c, std::string& why, bool account) {
     auto all_a = trompeloeil::all_of(da);
     auto none_a = trompeloeil::none_of(da);
     auto any_na_nb = trompeloeil::any_of(!da, !db);
-    if (!law("!any_of(a,b) == none_of(a,b)", not_any_ab, none_ab, false)) return false;
-    if (!law("!!a == a", notnot_a, da, false)) return false;
-    if (!law("all_of(a) == a", all_a, da, false)) return false;
-    if (!law("any_of(a,b) == any_of(b,a)", any_ab, any_ba, false)) return false;
-    if (!law("all_of(a,b) == all_of(b,a)", all_ab, all_ba, false)) return false;
-    if (!law("none_of(a) == not a", none_a, da, true)) return false;
-    if (!law("!all_of(a,b) == any_of(!a,!b)", not_all_ab, any_na_nb, false)) return false;
+    if (!run_law(c, "!any_of(a,b) == none_of(a,b)", make_eval<V>(not_any_ab), make_eval<V>(none_ab), false, why, account)) return false;
+    if (!run_law(c, "!!a == a", make_eval<V>(notnot_a), ea, false, why, account)) return false;
+    if (!run_law(c, "all_of(a) == a", make_eval<V>(all_a), ea, false, why, account)) return false;
+    if (!run_law(c, "any_of(a,b) == any_of(b,a)", make_eval<V>(any_ab), make_eval<V>(any_ba), false, why, account)) return false;
+    if (!run_law(c, "all_of(a,b) == all_of(b,a)", make_eval<V>(all_ab), make_eval<V>(all_ba), false, why, account)) return false;
+    if (!run_law(c, "none_of(a) == not a", make_eval<V>(none_a), ea, true, why, account)) return false;
+    if (!run_law(c, "!all_of(a,b) == any_of(!a,!b)", make_eval<V>(not_all_ab), make_eval<V>(any_na_nb), false, why, account)) return false;
   }
   // *m on null is false, !*m on null is true, for every pointer kind over this pointee
   if constexpr (d == D_INT || d == D_S) {
@@ -778,12 +830,7 @@ bool check_typed(const Case& c, std::string& why, bool account) {
     auto null_law = [&](auto np, const char* what) {
       bool s = trompeloeil::param_matches(star, std::ref(np));
       bool ns = trompeloeil::param_matches(nstar, std::ref(np));
-      if (s || !ns) {
-        why = std::string("law violated: *m rejects null and !*m accepts null (") + what + ")\nm = " + pretty(c.a, d) + "\n*m on null: " + (s ? "accept" : "reject") + "   !*m on null: " + (ns ? "accept" : "reject");
-        return false;
-      }
-      if (account) ST.label("null_laws_checked");
-      return true;
+      return null_law_result(c, what, s, ns, why, account);
     };
     if constexpr (d == D_INT) {
       if (!null_law(static_cast<int*>(nullptr), "int*")) return false;
@@ -799,29 +846,16 @@ bool check_typed(const Case& c, std::string& why, bool account) {
     Mock mk;
     const char* site = "?";
     Exp e = make_exp<V>(mk, c.a, site);
-    if (account) ST.label(std::string("e2e_site_") + site);
-    size_t step = vals.size() > 16 ? 7 : 1;
-    for (size_t i = 0; i < vals.size(); i += step) {
-      bool threw = false;
-      std::string msg;
-      unsigned long nf0 = g_nonfatal_reports;
+    auto call = [&](const Val& v, bool& threw) -> std::string {
       try {
-        with_value<V>(vals[i], [&](V& x) { call_mock(mk, x); return 0; });
+        with_value<V>(v, [&](V& x) { call_mock(mk, x); return 0; });
       } catch (fatal_report& r) {
         threw = true;
-        msg = r.msg;
+        return r.msg;
       }
-      bool ok = expect[i] ? !threw : (threw && msg.find("No match for call of") != std::string::npos);
-      if (g_nonfatal_reports != nf0) ok = false;
-      if (g_verbose) printf("  call(%s) via site %s: %s\n", val_str(d, vals[i]).c_str(), site, threw ? "fatal report" : "accepted");
-      if (account) ST.label(threw ? "e2e_calls_no_match" : "e2e_calls_accepted");
-      if (!ok) {
-        why = std::string("mock call disagrees with the independent evaluator (expectation site ") + site + ")\nmatcher (" + DOM_NAME[d] + "): " + pretty(c.a, d) + "\nvalue: " + val_str(d, vals[i]) +
-              "\nexpected: " + (expect[i] ? "call accepted" : "fatal 'No match' report") + "\nobserved: " + (threw ? "fatal report: " + msg.substr(0, 400) : std::string("call accepted")) +
-              (g_nonfatal_reports != nf0 ? "\n(plus an unexpected non-fatal report)" : "");
-        return false;
-      }
-    }
+      return std::string();
+    };
+    if (!run_e2e(c, site, call, expect, why, account)) return false;
   }
   return true;
 }
